@@ -304,6 +304,12 @@ func CompBoundaryPrograms() []CompCase {
 		{Src: "f := func(...a) { return func(b, ...c) { return a + c + b } }\n"},
 		{Src: "x := 1\nx = func() { return x }\ny := (func() { return y })\n"},
 		{Src: "y := (func() { return 1 })\nz := func() { w := (func() { return w }) }\n"},
+		{Src: "é := 1\né := 2\n"},
+		{Src: "x := ñandú\n"},
+		{Src: "日本 := 1\nf := func() { return 日本 }\n", Inputs: []string{"wörld"}},
+		{Src: "for { break foo }\nfor { continue bar }\n"},
+		{Src: "a := 1\nif a := 2; a { b := a } else if c := a; c { d := c } else { e := c }\n"},
+		{Src: "f := func() { a := 1; if a := 2; a { b := a } else if c := a; c { d := c } else { e := c }; g := 5 }\n"},
 	}
 	// one-byte operand limits
 	out = append(out,
@@ -440,7 +446,7 @@ func CompLargePrograms() []CompCase {
 	}
 	a.WriteString("]\ny := 5\nf := func() { return y }\n")
 	b.WriteString("f := func(p) {\n\tq := 0\n")
-	for i := 0; i < 2600; i++ {
+	for i := 0; i < 2300; i++ {
 		b.WriteString("\tif p { q = q + " + N(i) + " } else { q = q - 1 }\n")
 	}
 	b.WriteString("\treturn func() { return q }\n}\n")
